@@ -282,7 +282,7 @@ Qed.
 
 (** the separation the Hoeffding test asks for, for the cut [k] of the window [W] *)
 Definition hoeff_eps (alpha : R) (n1 n2 : nat) : R :=
-  sqrt ((1 / INR n1 + 1 / INR n2) / 2 * ln (1 / alpha)).
+  R_sqrt.sqrt ((1 / INR n1 + 1 / INR n2) / 2 * Rpower.ln (1 / alpha)).
 Definition incr_sep (alpha : R) (W : list R) (k : nat) : Prop :=
   (k < length W)%nat /\
   hoeff_eps alpha k (length W - k) <= Rmean (skipn k W) - Rmean (firstn k W).
@@ -478,7 +478,7 @@ Theorem hddma_drift_hoeffding : forall (c : hddma_cfg RealA) (vs : list R) (v : 
   (1 <= k <= length W)%nat /\ ax c s v = mean_run (A:=RealA) (firstn k W) /\
   (hdrift s' = true <->
    (ha_min c <= t)%Z /\ (k < length W)%nat /\
-   sqrt ((1 / INR k + 1 / INR (length W - k)) / 2 * ln (1 / ha_alpha_d c))
+   R_sqrt.sqrt ((1 / INR k + 1 / INR (length W - k)) / 2 * Rpower.ln (1 / ha_alpha_d c))
      <= Rmean (skipn k W) - Rmean (firstn k W)) /\
   (hwarning s' = true <->
    (ha_min c <= t)%Z /\ ~ incr_sep (ha_alpha_d c) W k /\ incr_sep (ha_alpha_w c) W k).
@@ -717,3 +717,287 @@ Section WTrack.
     rewrite wtrack_snoc. destruct o as [v|]; [apply WInv_step; exact IH | apply WInv_init].
   Qed.
 End WTrack.
+
+(** ** (3b) over the reals: McDiarmid's bound on EWMAs *)
+Theorem mcd_check_R : forall (s1 s2 : sinfo RealA) (alpha : R),
+  mcd_check s1 s2 alpha = true <->
+  R_sqrt.sqrt ((si_ibc s1 + si_ibc s2) * Rpower.ln (1 / alpha) / 2) < si_mean s2 - si_mean s1.
+Proof.
+  intros s1 s2 alpha. unfold mcd_check, mcd_bound, one, two.
+  cbn [ltb add sub mul div sqrt ln ofZ RealA num]. apply Rltb_true.
+Qed.
+
+(** EWMA of a list (weight lam (1-lam)^age) and the independent bound condition after n updates *)
+Definition EW (lam : R) (l : list R) : R := wsum (fun k => lam * (1 - lam) ^ k) l.
+Definition IBC (lam : R) (n : nat) : R :=
+  lam * lam * sum_f_R0' (fun i => ((1 - lam) * (1 - lam)) ^ i) n + ((1 - lam) * (1 - lam)) ^ n.
+(** McDiarmid separation of the sample [L2] above the sample [L1] *)
+Definition mcd_sep (lam alpha : R) (L1 L2 : list R) : Prop :=
+  R_sqrt.sqrt ((IBC lam (length L1) + IBC lam (length L2)) * Rpower.ln (1 / alpha) / 2) < EW lam L2 - EW lam L1.
+
+Lemma sirun_closed : forall (lam : R) (l : list R),
+  si_mean (sirun (A:=RealA) lam l) = EW lam l /\ si_ibc (sirun (A:=RealA) lam l) = IBC lam (length l).
+Proof. intros lam l. split; [apply hddmw_ewma_closed | apply hddmw_ibc_closed]. Qed.
+
+Lemma mcd_check_sirun : forall (lam alpha : R) (L1 L2 : list R),
+  mcd_check (sirun (A:=RealA) lam L1) (sirun (A:=RealA) lam L2) alpha = true <-> mcd_sep lam alpha L1 L2.
+Proof.
+  intros lam alpha L1 L2. rewrite mcd_check_R.
+  destruct (sirun_closed lam L1) as [-> ->]. destruct (sirun_closed lam L2) as [-> ->]. reflexivity.
+Qed.
+
+Theorem hddmw_drift_mcdiarmid_ops : forall (c : hddmw_cfg RealA) (ops : list (op R)) (v : R),
+  let tr := wtrack c ops in
+  let s := exec (HDDMWD RealA) c ops in
+  let s' := exec (HDDMWD RealA) c (ops ++ [Upd v]) in
+  let W := wt_W tr ++ [v] in
+  let ki := if inc_moves c s v then length W else wt_ki tr in
+  let kd := if dec_moves c s v then length W else wt_kd tr in
+  let lam := hw_lambda c in
+  let t := (updates_since_reset (HDDMWD RealA) ops + 1)%Z in
+  let drift_cond := mcd_sep lam (hw_alpha_d c) (firstn ki W) (skipn ki W) \/
+                    (hw_two c = true /\ mcd_sep lam (hw_alpha_d c) (skipn kd W) (firstn kd W)) in
+  let warn_cond := mcd_sep lam (hw_alpha_w c) (firstn ki W) (skipn ki W) \/
+                   (hw_two c = true /\ mcd_sep lam (hw_alpha_w c) (skipn kd W) (firstn kd W)) in
+  (1 <= ki <= length W)%nat /\ (hw_two c = true -> (1 <= kd <= length W)%nat) /\
+  (wdrift s' = true <-> (hw_min c <= t)%Z /\ drift_cond) /\
+  (wwarning s' = true <-> (hw_min c <= t)%Z /\ ~ drift_cond /\ warn_cond).
+Proof.
+  intros c ops v tr s s' W ki kd lam t drift_cond warn_cond.
+  destruct (hddmw_state_meaning c ops) as (Es & I). fold tr s in Es, I.
+  pose proof (WInv_keep c tr v false I) as K. unfold WInv in K.
+  cbn [wt_s wt_W wt_ki wt_kd w_keep wtotal winc1 winc2 wdec1 wdec2 winc_cut wdec_cut] in K.
+  rewrite Es in K.
+  assert (EL : S (length (wt_W tr)) = length W) by (unfold W; rewrite app_length; cbn [length]; lia).
+  rewrite EL in K. fold W ki kd lam in K.
+  destruct K as (_ & _ & (Hki & Hki1 & Ei1 & Ei2) & Hd).
+  assert (Wne : W <> []) by (unfold W; intros H; destruct (wt_W tr); discriminate).
+  split; [split; [apply Hki1; exact Wne | exact Hki]|].
+  assert (Hkd : hw_two c = true -> (1 <= kd <= length W)%nat /\
+            wd1 c s v = sirun (A:=RealA) lam (firstn kd W) /\ wd2 c s v = sirun (A:=RealA) lam (skipn kd W)).
+  { intros E2. rewrite E2 in Hd. destruct Hd as (H1 & H2 & H3 & H4).
+    split; [split; [apply H2; exact Wne | exact H1]|]. split; assumption. }
+  split; [intros E2; apply (Hkd E2)|].
+  assert (CI : forall a, mcd_check (wi1 c s v) (wi2 c s v) a = true <-> mcd_sep lam a (firstn ki W) (skipn ki W)).
+  { intros a. rewrite Ei1, Ei2. apply mcd_check_sirun. }
+  assert (CD : forall a, hw_two c = true ->
+            (mcd_check (wd2 c s v) (wd1 c s v) a = true <-> mcd_sep lam a (skipn kd W) (firstn kd W))).
+  { intros a E2. destruct (Hkd E2) as (_ & -> & ->). apply mcd_check_sirun. }
+  assert (C : forall a, (mcd_check (wi1 c s v) (wi2 c s v) a = true \/
+                         (hw_two c = true /\ mcd_check (wd2 c s v) (wd1 c s v) a = true)) <->
+                        (mcd_sep lam a (firstn ki W) (skipn ki W) \/
+                         (hw_two c = true /\ mcd_sep lam a (skipn kd W) (firstn kd W)))).
+  { intros a. rewrite CI. split; (intros [H|(E2 & H)]; [left; exact H | right; split; [exact E2|]]);
+      apply (CD a E2); exact H. }
+  unfold s'. rewrite exec_snoc_w. cbn [apply d_step HDDMWD]. fold s.
+  destruct (hddmw_step_verdict c s v) as (Hdr & Hwn & _). cbv zeta in Hdr, Hwn.
+  assert (En : wn s = updates_since_reset (HDDMWD RealA) ops) by (apply (hddmw_ninst RealA c ops)).
+  unfold t. rewrite <- En. unfold drift_cond, warn_cond. rewrite <- !C. split; assumption.
+Qed.
+
+(** update-only streams *)
+Lemma wrun_exec {A : Arith} (c : hddmw_cfg A) vs : wrun c vs = exec (HDDMWD A) c (map Upd vs).
+Proof.
+  induction vs as [|v vs IH] using rev_ind; [reflexivity|].
+  rewrite wrun_snoc, map_app, IH. cbn [map]. rewrite exec_snoc_w. reflexivity.
+Qed.
+
+Lemma wrun_n {A : Arith} (c : hddmw_cfg A) vs : wn (wrun c vs) = Z.of_nat (length vs).
+Proof.
+  induction vs as [|v vs IH] using rev_ind; [reflexivity|].
+  rewrite wrun_snoc. destruct (hddmw_step_verdict c (wrun c vs) v) as (_ & _ & ->).
+  rewrite IH, app_length. cbn [length]. lia.
+Qed.
+
+(** verdict of every step of an update-only run, every number system: drift iff
+    t >= min_num_instances and the McDiarmid check fires on the increase samples or
+    (two-sided) on the decrease samples; warning iff not so, but so with alpha_w. *)
+Theorem hddmw_verdict : forall (A : Arith) (c : hddmw_cfg A) (vs : list (num A)) (v : num A),
+  let s := wrun c vs in
+  let i1 := wi1 c s v in let i2 := wi2 c s v in let d1 := wd1 c s v in let d2 := wd2 c s v in
+  let t := Z.of_nat (length (vs ++ [v])) in
+  (wdrift (wrun c (vs ++ [v])) = true <->
+   (hw_min c <= t)%Z /\
+   (mcd_check i1 i2 (hw_alpha_d c) = true \/ (hw_two c = true /\ mcd_check d2 d1 (hw_alpha_d c) = true))) /\
+  (wwarning (wrun c (vs ++ [v])) = true <->
+   (hw_min c <= t)%Z /\
+   ~ (mcd_check i1 i2 (hw_alpha_d c) = true \/ (hw_two c = true /\ mcd_check d2 d1 (hw_alpha_d c) = true)) /\
+   (mcd_check i1 i2 (hw_alpha_w c) = true \/ (hw_two c = true /\ mcd_check d2 d1 (hw_alpha_w c) = true))).
+Proof.
+  intros A c vs v s i1 i2 d1 d2 t. rewrite wrun_snoc. fold s.
+  replace t with (wn s + 1)%Z by (unfold t, s; rewrite wrun_n, app_length; cbn [length]; lia).
+  destruct (hddmw_step_verdict c s v) as (Hd & Hw & _). split; assumption.
+Qed.
+
+Definition wwin_run {A : Arith} (c : hddmw_cfg A) (vs : list (num A)) : wtr := wtrack c (map Upd vs).
+
+Lemma usr_map_upd_w : forall (c : hddmw_cfg RealA) (vs : list R),
+  updates_since_reset (HDDMWD RealA) (map Upd vs) = Z.of_nat (length vs).
+Proof.
+  intros c vs. rewrite <- (hddmw_ninst RealA c (map Upd vs)). cbn [d_ninst HDDMWD].
+  rewrite <- wrun_exec. apply wrun_n.
+Qed.
+
+(** Over the reals, on an update-only run: with [W] the values since the last drift (the new
+    one included), [ki] ([kd]) the position of the increase (decrease) cut point in [W]:
+    drift iff t >= min and  EWMA(after ki) - EWMA(up to ki) > sqrt((ibc1+ibc2) ln(1/alpha_d)/2),
+    or, two-sided, EWMA(up to kd) - EWMA(after kd) > the same bound for that cut. *)
+Theorem hddmw_drift_mcdiarmid : forall (c : hddmw_cfg RealA) (vs : list R) (v : R),
+  let tr := wwin_run c vs in
+  let s := wrun c vs in let s' := wrun c (vs ++ [v]) in
+  let W := wt_W tr ++ [v] in
+  let ki := if inc_moves c s v then length W else wt_ki tr in
+  let kd := if dec_moves c s v then length W else wt_kd tr in
+  let lam := hw_lambda c in
+  let t := Z.of_nat (length (vs ++ [v])) in
+  let drift_cond := mcd_sep lam (hw_alpha_d c) (firstn ki W) (skipn ki W) \/
+                    (hw_two c = true /\ mcd_sep lam (hw_alpha_d c) (skipn kd W) (firstn kd W)) in
+  let warn_cond := mcd_sep lam (hw_alpha_w c) (firstn ki W) (skipn ki W) \/
+                   (hw_two c = true /\ mcd_sep lam (hw_alpha_w c) (skipn kd W) (firstn kd W)) in
+  (1 <= ki <= length W)%nat /\ (hw_two c = true -> (1 <= kd <= length W)%nat) /\
+  (wdrift s' = true <-> (hw_min c <= t)%Z /\ drift_cond) /\
+  (wwarning s' = true <-> (hw_min c <= t)%Z /\ ~ drift_cond /\ warn_cond).
+Proof.
+  intros c vs v tr s s' W ki kd lam t drift_cond warn_cond.
+  pose proof (hddmw_drift_mcdiarmid_ops c (map Upd vs) v) as H. cbv zeta in H.
+  rewrite (usr_map_upd_w c vs) in H.
+  replace (map Upd vs ++ [Upd v]) with (map (@Upd R) (vs ++ [v])) in H by (rewrite map_app; reflexivity).
+  rewrite <- !wrun_exec in H.
+  replace (Z.of_nat (length vs) + 1)%Z with t in H
+    by (unfold t; rewrite app_length; cbn [length]; lia).
+  exact H.
+Qed.
+
+(** ** (4b) the two-sided W-test is symmetric under x -> -x *)
+Lemma Rltb_ext : forall a b c d : R, (a < b <-> c < d) -> Rltb a b = Rltb c d.
+Proof.
+  intros a b c d H. destruct (Rltb_spec a b) as [H1|H1]; destruct (Rltb_spec c d) as [H2|H2];
+    try reflexivity; exfalso; tauto.
+Qed.
+
+Definition sneg (a b : sinfo RealA) : Prop := si_ibc b = si_ibc a /\ si_mean b = - si_mean a.
+Definition cneg (a b : option R) : Prop :=
+  match a, b with None, None => True | Some x, Some y => y = - x | _, _ => False end.
+Definition WMir (s s' : hddmw_st RealA) : Prop :=
+  wn s' = wn s /\ wdrift s' = wdrift s /\ wwarning s' = wwarning s /\
+  sneg (wtotal s) (wtotal s') /\
+  sneg (winc1 s) (wdec1 s') /\ sneg (winc2 s) (wdec2 s') /\ cneg (winc_cut s) (wdec_cut s') /\
+  sneg (wdec1 s) (winc1 s') /\ sneg (wdec2 s) (winc2 s') /\ cneg (wdec_cut s) (winc_cut s').
+
+Lemma sneg_init : sneg si_init si_init.
+Proof. unfold sneg, si_init, zero. cbn [si_ibc si_mean ofZ RealA]. split; [reflexivity | lra]. Qed.
+
+Lemma sneg_update : forall lam a b v, sneg a b ->
+  sneg (si_update (A:=RealA) lam a v) (si_update (A:=RealA) lam b (- v)).
+Proof.
+  intros lam a b v [Hi Hm]. unfold sneg, si_update, one. cbn [si_ibc si_mean add sub mul ofZ RealA num].
+  rewrite Hi, Hm. split; [reflexivity | ring].
+Qed.
+
+Lemma mcd_swap : forall (i1 i2 d1' d2' : sinfo RealA) a, sneg i1 d1' -> sneg i2 d2' ->
+  mcd_check d2' d1' a = mcd_check i1 i2 a.
+Proof.
+  intros i1 i2 d1' d2' a [E1 M1] [E2 M2]. unfold mcd_check, mcd_bound.
+  rewrite E1, E2, M1, M2. cbn [ltb add sub mul div RealA num].
+  rewrite (Rplus_comm (si_ibc i2) (si_ibc i1)). apply Rltb_ext. split; intros H; lra.
+Qed.
+
+Lemma mcd_swap' : forall (d1 d2 i1' i2' : sinfo RealA) a, sneg d1 i1' -> sneg d2 i2' ->
+  mcd_check i1' i2' a = mcd_check d2 d1 a.
+Proof.
+  intros d1 d2 i1' i2' a [E1 M1] [E2 M2]. unfold mcd_check, mcd_bound.
+  rewrite E1, E2, M1, M2. cbn [ltb add sub mul div RealA num].
+  rewrite (Rplus_comm (si_ibc d1) (si_ibc d2)). apply Rltb_ext. split; intros H; lra.
+Qed.
+
+Lemma WMir_init : forall c, WMir (hddmw_init c) (hddmw_init c).
+Proof.
+  intros c. unfold WMir, hddmw_init.
+  cbn [wn wdrift wwarning wtotal winc1 winc2 wdec1 wdec2 winc_cut wdec_cut cneg].
+  repeat split; try apply sneg_init.
+Qed.
+
+Lemma WMir_step : forall (c : hddmw_cfg RealA) s s' v, hw_two c = true ->
+  WMir s s' -> WMir (hddmw_step c s v) (hddmw_step c s' (- v)).
+Proof.
+  intros c s s' v E2 (Hn & _ & _ & Ht & Hi1 & Hi2 & Hic & Hd1 & Hd2 & Hdc).
+  assert (T : sneg (wtot c s v) (wtot (A:=RealA) c s' (- v))) by (apply sneg_update; exact Ht).
+  assert (E : weps (A:=RealA) c s' (- v) = weps c s v).
+  { unfold weps. destruct T as [-> _]. reflexivity. }
+  assert (M1 : dec_moves (A:=RealA) c s' (- v) = inc_moves c s v).
+  { unfold dec_moves, inc_moves. rewrite E2, E. cbn [andb]. destruct T as [_ ->].
+    destruct (winc_cut s) as [x|], (wdec_cut s') as [y|]; cbn [cneg] in Hic; try contradiction; [|reflexivity].
+    subst y. cbn [gt_opt lt_opt ltb add sub RealA num]. apply Rltb_ext. split; intros H; lra. }
+  assert (M2 : inc_moves (A:=RealA) c s' (- v) = dec_moves c s v).
+  { unfold dec_moves, inc_moves. rewrite E2, E. cbn [andb]. destruct T as [_ ->].
+    destruct (wdec_cut s) as [x|], (winc_cut s') as [y|]; cbn [cneg] in Hdc; try contradiction; [|reflexivity].
+    subst y. cbn [gt_opt lt_opt ltb add sub RealA num]. apply Rltb_ext. split; intros H; lra. }
+  assert (I1 : sneg (wi1 c s v) (wd1 (A:=RealA) c s' (- v))).
+  { unfold wi1, wd1. rewrite E2, M1. destruct (inc_moves c s v); assumption. }
+  assert (I2 : sneg (wi2 c s v) (wd2 (A:=RealA) c s' (- v))).
+  { unfold wi2, wd2. rewrite E2, M1. destruct (inc_moves c s v); [apply sneg_init | apply sneg_update; exact Hi2]. }
+  assert (D1 : sneg (wd1 c s v) (wi1 (A:=RealA) c s' (- v))).
+  { unfold wi1, wd1. rewrite E2, M2. destruct (dec_moves c s v); assumption. }
+  assert (D2 : sneg (wd2 c s v) (wi2 (A:=RealA) c s' (- v))).
+  { unfold wi2, wd2. rewrite E2, M2. destruct (dec_moves c s v); [apply sneg_init | apply sneg_update; exact Hd2]. }
+  assert (IC : cneg (wicut c s v) (wdcut (A:=RealA) c s' (- v))).
+  { unfold wicut, wdcut. rewrite M1, E. destruct (inc_moves c s v); [|exact Hic].
+    cbn [cneg add sub RealA num]. destruct T as [_ ->]. lra. }
+  assert (DC : cneg (wdcut c s v) (wicut (A:=RealA) c s' (- v))).
+  { unfold wicut, wdcut. rewrite M2, E. destruct (dec_moves c s v); [|exact Hdc].
+    cbn [cneg add sub RealA num]. destruct T as [_ ->]. lra. }
+  assert (DR : forall a, mcd_check (wi1 (A:=RealA) c s' (- v)) (wi2 (A:=RealA) c s' (- v)) a ||
+                         (hw_two c && mcd_check (wd2 (A:=RealA) c s' (- v)) (wd1 (A:=RealA) c s' (- v)) a) =
+                         mcd_check (wi1 c s v) (wi2 c s v) a || (hw_two c && mcd_check (wd2 c s v) (wd1 c s v) a)).
+  { intros a. rewrite E2. cbn [andb].
+    rewrite (mcd_swap _ _ _ _ a I1 I2), (mcd_swap' _ _ _ _ a D1 D2). apply orb_comm. }
+  rewrite !hddmw_step_eq. unfold w_drift, w_warn. rewrite !DR, Hn.
+  destruct (hw_min c <=? wn s + 1)%Z.
+  - destruct (mcd_check (wi1 c s v) (wi2 c s v) (hw_alpha_d c) ||
+              (hw_two c && mcd_check (wd2 c s v) (wd1 c s v) (hw_alpha_d c))).
+    + unfold WMir, w_reset_drift.
+      cbn [wn wdrift wwarning wtotal winc1 winc2 wdec1 wdec2 winc_cut wdec_cut cneg].
+      repeat split; try apply sneg_init.
+    + unfold WMir, w_keep.
+      cbn [wn wdrift wwarning wtotal winc1 winc2 wdec1 wdec2 winc_cut wdec_cut].
+      rewrite Hn.
+      refine (conj _ (conj _ (conj _ (conj T (conj I1 (conj I2 (conj IC (conj D1 (conj D2 DC))))))))); reflexivity.
+  - unfold WMir, w_keep.
+    cbn [wn wdrift wwarning wtotal winc1 winc2 wdec1 wdec2 winc_cut wdec_cut].
+    rewrite Hn.
+    refine (conj _ (conj _ (conj _ (conj T (conj I1 (conj I2 (conj IC (conj D1 (conj D2 DC))))))))); reflexivity.
+Qed.
+
+Theorem hddmw_mirror_neg : forall (c : hddmw_cfg RealA) (vs : list R), hw_two c = true ->
+  wdrift (wrun c (map Ropp vs)) = wdrift (wrun c vs) /\
+  wwarning (wrun c (map Ropp vs)) = wwarning (wrun c vs).
+Proof.
+  intros c vs E2.
+  assert (M : WMir (wrun c vs) (wrun c (map Ropp vs))).
+  { induction vs as [|v vs IH] using rev_ind; [apply WMir_init|].
+    rewrite map_app. cbn [map]. rewrite !wrun_snoc. apply WMir_step; assumption. }
+  destruct M as (_ & Hd & Hw & _). split; assumption.
+Qed.
+
+(** a drop 0 -> -1 is detected by the two-sided W-test exactly as the rise 0 -> 1 *)
+Theorem hddmw_drop_as_rise_partial : forall (c : hddmw_cfg RealA) (n k : nat), hw_two c = true ->
+  wdrift (wrun c (repeat 0 n ++ repeat (-1) k)) = wdrift (wrun c (repeat 0 n ++ repeat 1 k)) /\
+  wwarning (wrun c (repeat 0 n ++ repeat (-1) k)) = wwarning (wrun c (repeat 0 n ++ repeat 1 k)).
+Proof.
+  intros c n k E2.
+  replace (repeat 0 n ++ repeat (-1) k) with (map Ropp (repeat 0 n ++ repeat 1 k)).
+  - apply hddmw_mirror_neg. exact E2.
+  - rewrite map_app, !map_repeat'. rewrite Ropp_0. reflexivity.
+Qed.
+
+(* FULL (not proved): for HDDM-W, the analogue of [hddma_drop_as_rise] with the mirror
+   x -> 1-x, i.e.  wdrift (wrun c (repeat 1 n ++ repeat 0 k)) = wdrift (wrun c (repeat 0 n ++ repeat 1 k)),
+   is FALSE in general: the EWMA starts at 0, so EWMA_t(1-x) = 1 - (1-lam)^t - EWMA_t(x), not
+   1 - EWMA_t(x); see the binary64 counterexample in Props/C04.v (lam = 0.05, n = k = 30: the
+   drop is reported at step 55, the rise at step 57).  What is proved instead is the exact
+   symmetry under x -> -x ([hddmw_mirror_neg], [hddmw_drop_as_rise_partial]).
+   FULL (not proved): an explicit delay bound for the W-test on 0^n 1^k (analogue of
+   [hddma_rise_detected]): exists j <= n + k with wdrift (wrun c (firstn j (repeat 0 n ++ repeat 1 k))) = true
+   under a condition on lam, alpha_d, n, k.  Obstacle: needs the closed form
+   1 - (1-lam)^i of the EWMA of i ones against IBC lam n + IBC lam i, and a proof that the
+   increase cut point stays at the last zero; not attempted. *)
